@@ -56,9 +56,13 @@ Definition comps (s : str) : list comp := flat_map comp_of_seg (split_slash s).
    directory there, and so does a trailing "/" *)
 Definition kcomp_of_seg (s : str) : list comp :=
   if str_eqb s [] then [] else if str_eqb s [c_dot] then [CDot] else if str_eqb s [c_dot; c_dot] then [CParent] else [CNormal s].
+(* the last segment: an empty one is a trailing "/" (or the empty name joined as "T/") *)
+Definition klast (s : str) : list comp := if str_eqb s [] then [CDot] else kcomp_of_seg s.
 Definition kcomps (s : str) : list comp :=
-  flat_map kcomp_of_seg (split_slash s) ++
-  (match rev s with c :: _ :: _ => if N.eqb c c_slash then [CDot] else [] | _ => [] end).
+  match rev (split_slash s) with
+  | [] => []
+  | l :: init_rev => flat_map kcomp_of_seg (rev init_rev) ++ klast l
+  end.
 
 Definition is_abs (s : str) : bool := match s with c :: _ => N.eqb c c_slash | [] => false end.
 Definition has_nul (s : str) : bool := existsb (N.eqb 0) s.
@@ -101,10 +105,10 @@ Definition fs_set (fs : fsys) (l : loc) (n : node) : fsys :=
 
 (* Path::join + components: where the walk starts and what it walks over *)
 Definition full_comps (T : loc) (name : str) : list comp :=
-  if is_abs name then comps name else map CNormal T ++ comps name.
+  (if is_abs name then [] else map CNormal T) ++ comps name.
 
-Definition full_kcomps (T : loc) (name : str) : list comp :=
-  if is_abs name then kcomps name else map CNormal T ++ kcomps name.
+Definition base (T : loc) (name : str) : list comp := if is_abs name then [] else map CNormal T.
+Definition full_kcomps (T : loc) (name : str) : list comp := base T name ++ kcomps name.
 
 (* kernel path resolution (stat): every directory passed through must exist *)
 Fixpoint stat_walk (fs : fsys) (cur : loc) (cs : list comp) : option loc :=
@@ -149,10 +153,10 @@ Fixpoint mkdir_p (fs : fsys) (cur : loc) (cs : list comp) : fsys * bool :=
 Definition create_file (fs : fsys) (T : loc) (name : str) (content : list N) : option fsys :=
   match rev (split_slash name) with
   | [] => None
-  | last_seg :: _ =>
+  | last_seg :: init_rev =>
       match comp_of_seg last_seg with
       | [CNormal s] =>
-          match stat_walk fs [] (removelast (full_kcomps T name)) with
+          match stat_walk fs [] (base T name ++ flat_map kcomp_of_seg (rev init_rev)) with
           | Some p =>
               match lookup fs p, lookup fs (p ++ [s]) with
               | Some D, Some D => None
@@ -163,6 +167,12 @@ Definition create_file (fs : fsys) (T : loc) (name : str) (content : list N) : o
           end
       | _ => None
       end
+  end.
+(* reading a file back (used by the statements only) *)
+Definition read_file (fs : fsys) (T : loc) (name : str) : option (list N) :=
+  match stat_walk fs [] (full_kcomps T name) with
+  | Some l => match lookup fs l with Some (F c) => Some c | _ => None end
+  | None => None
   end.
 
 (* ------------------------------------------------------------------ extract_to_dir *)
